@@ -95,6 +95,13 @@ class Ctx:
                 tree = ast.parse(self.src(rel), filename=rel)
             except SyntaxError as e:  # the variant does not compile: not ours to judge
                 raise AnalysisError(f"{rel} does not parse: {e}")
+            # locals are given their reference spelling (an alpha-renaming; see sa/canon.py), so that
+            # no rule depends on how a local happens to be spelled
+            from . import canon
+
+            k = canon.canonicalise(tree, rel)
+            if k:
+                self.notes.append(f"{rel}: {k} local(s) renamed to their reference spelling before analysis (alpha-renaming)")
             pyfacts.annotate(tree, rel)
             self._py[rel] = tree
         return self._py[rel]
